@@ -303,7 +303,9 @@ type action struct {
 	op     AgentOp
 }
 
-func (w *World) faultsOn() bool { return w.phase == phaseDisturbed && w.Cfg.FaultBudget > w.faultsUsed() }
+func (w *World) faultsOn() bool {
+	return w.phase == phaseDisturbed && w.Cfg.FaultBudget > w.faultsUsed()
+}
 
 func (w *World) faultsUsed() int {
 	n := 0
@@ -466,6 +468,37 @@ func simError(kind string, r *Req) error {
 func (w *World) doResume(a *Actor) {
 	r := a.pending
 	msg := resumeMsg{kind: msgProceed}
+	if w.Cfg.SweepKind != "" && !r.Cached {
+		n := w.sweepCount
+		w.sweepCount++
+		if n == w.Cfg.SweepAt {
+			switch w.Cfg.SweepKind {
+			case "err-before":
+				msg.fault, msg.err = "err-before", simError("InternalError", r)
+				w.Stats.Fault("sweep/err-before")
+			case "lost-response":
+				msg.fault, msg.err = "lost-response", apierrors.NewTimeoutError("simulated lost response", 1)
+				w.Stats.Fault("sweep/lost-response")
+			case "crash-before":
+				w.Stats.Fault("sweep/crash-before")
+				w.Crash(a.Proc, w.restartDelay())
+				return
+			case "crash-after":
+				w.Stats.Fault("sweep/crash-after")
+				msg.fault = "crash-after"
+				proc := a.Proc
+				w.zombies = append(w.zombies, a)
+				a.resume <- msg
+				w.waitSettled()
+				w.Crash(proc, w.restartDelay())
+				return
+			}
+			w.Tracef("SWEEP FAULT %s on request #%d: %s %s %s/%s by %s", w.Cfg.SweepKind, n, r.Verb, r.GVK.Kind, r.NS, r.Name, a.ID)
+			a.resume <- msg
+			w.waitSettled()
+			return
+		}
+	}
 	if a.Proc.partition > 0 && !r.Cached {
 		a.Proc.partition--
 		msg.fault = "err-before"
